@@ -97,6 +97,11 @@ def generate(rng, n, k):
                 img["disc_number"] = j + 1          # distinct identities: the order of adds cannot change the outcome
                 img["path"] = "%s-%d" % (img["path"], j)
             ops = [[rng.choice(OI.VARIANTS[:2]), rng.choice(OI.ARCHES[:2]), rng.randrange(len(pool))] for _ in range(rng.randint(5, 12))]
+            # the same ISO published under two file names: two image objects equal in everything but the path, in one cell
+            twin = copy.deepcopy(pool[0])
+            twin["path"] = pool[0]["path"] + ".latest"
+            pool.append(twin)
+            ops += [["Server", "x86_64", 0], ["Server", "x86_64", len(pool) - 1]]
             orders = []
             for _ in range(k):
                 o = list(ops)
